@@ -19,6 +19,28 @@ def rule_wiring(ctx, rid="R11.1"):
         raise AnalysisError("check_schema vanished")
     r = ctx.rule(rid, "check_schema validates the candidate against its own class's metaschema, without format checker/resolver/types, "
                       "and raises SchemaError.create_from(first error)", floor=3)
+    from . import valsem
+    sem = ctx.extra.get("_check_schema_eval", 0)
+    if sem == 0:
+        try:
+            sem = valsem.check_schema_eval(prog)
+        except RecursionError:
+            sem = None
+        ctx.extra["_check_schema_eval"] = sem
+    if sem is not None:
+        # decided on the class create() builds inside sa/tokeval.py, with recording keyword functions
+        texts = {"raises-schema-error": "the first metaschema error comes back as SchemaError.create_from(error); nothing is raised or returned otherwise",
+                 "own-class": "the candidate is validated by an instance of the class called on, over that class's own META_SCHEMA (also for extend()ed classes)",
+                 "bare-validator": "that instance has no format checker, the class's own type checks and the default resolver",
+                 "classmethod": "callable on the class and on an instance alike",
+                 "candidate-untouched": "neither the candidate nor the metaschema is written to",
+                 "raises": "evaluates without an unexpected exception"}
+        for clause, msg in sorted(sem.items()):
+            if msg is None:
+                r.ok(site(f), "[semantic] %s" % texts.get(clause, clause))
+            else:
+                r.fail("%s|semantic|%s" % (f.qual, clause), site(f), msg)
+        return r
     if "classmethod" not in [norm(d) for d in f.decorators]:
         r.fail("%s|not-classmethod" % f.qual, site(f), "check_schema is not a classmethod")
     cp, sp = f.params[0], f.params[1]
